@@ -33,3 +33,10 @@ package preflight
 //@   ensures len(*vs) == old(len(*vs))
 //@ func package-operator.run/internal/preflight.(*NamespaceEscalation).Check
 //@   ensures [C11] err == nil && len(violations) == 0 && len(ns(owner)) > 0 && ctxPhaseClass(ctx) == "" && len(ns(obj)) > 0 ==> ns(obj) == ns(owner)
+
+// a server-side dry run counts as passed only if the API server accepted it: no violation and no error means the last
+// dry-run request (Patch, or Create after NotFound) returned no error
+//@ func package-operator.run/internal/preflight.(*DryRun).Check
+//@   sink Writer.Patch#1 requires [C11] dryrun
+//@   sink Writer.Create#1 requires [C11] dryrun
+//@   ensures [C11] err == nil && len(violations) == 0 ==> lastWriteOK()
